@@ -79,6 +79,16 @@ func (x *fnExec) doCall(st *State, site ssa.Instruction, call *ssa.CallCommon, m
 	c := x.calleeContract(call)
 	name := x.calleeName(call)
 	ord := x.siteOrd[site]
+	for _, ac := range x.c.AssumeCall {
+		if ac.Target == name {
+			actx := x.ctx(st)
+			for ai, a := range args {
+				actx.vars[fmt.Sprintf("$arg%d", ai)] = a
+			}
+			st.assume(x.evalClause(st, actx, ac))
+			v.note("%s: ASSUMED before %s: %s", x.fnName(), name, ac.Src)
+		}
+	}
 	if mode == "go" {
 		for _, ac := range x.c.AtGo {
 			if ac.Target == name {
@@ -328,7 +338,7 @@ func (x *fnExec) modSingle(m string, c *FuncContract, ctx *EvalCtx) string {
 		}
 		return ctx.eval(e).S
 	}
-	if strings.HasPrefix(m, "map[") || m == "*" || m == "chan" || m == "cells" {
+	if strings.HasPrefix(m, "map[") || m == "*" || m == "chan" || m == "cells" || m == "chanrecv" || m == "chansend" || m == "chanclose" {
 		return ""
 	}
 	if i := strings.LastIndex(m, "."); i >= 0 && !isTypeName(v, m[:i], v.pkgOf(c)) {
@@ -348,14 +358,13 @@ func (x *fnExec) applyModifies(st *State, c *FuncContract, mods []string, pre *E
 	whole := map[string]bool{}
 	locs := map[string][]string{}
 	var order []string
+	hasFresh := false
 	for _, m := range mods {
 		if strings.TrimSpace(m) == "fresh" {
-			// everything may change, but only at objects allocated by the callee
-			snap := st.snapshot()
-			wasUnknown := st.unknownHavoc
-			x.havocAll(st)
-			st.unknownHavoc = wasUnknown
-			st.freshEpochs[st.epoch] = &freshEpoch{snap: snap, oldAlloc: oldAlloc}
+			// `fresh`: the callee allocates and initialises objects. Arrays that are not listed keep their symbol: the
+			// contents of not-yet-allocated indices are arbitrary, so the callee's postconditions about its fresh objects
+			// simply reveal them (every assumption about array contents is guarded by allocatedness).
+			hasFresh = true
 		}
 	}
 	for _, m := range mods {
@@ -388,46 +397,29 @@ func (x *fnExec) applyModifies(st *State, c *FuncContract, mods []string, pre *E
 			}
 		}
 	}
-	// frame axioms below speak about objects allocated before the call (r < oldAlloc): state heap closedness for that
-	// bound (lazily included, only for heap symbols a query mentions)
-	needClosed := false
-	for _, n := range order {
-		if !whole[n] {
-			needClosed = true
-		}
-	}
-	if needClosed {
-		var refNames []string
-		for n := range v.heapIsRef {
-			if _, ok := v.heapSorts[n]; ok {
-				refNames = append(refNames, n)
-			}
-		}
-		sortStrings(refNames)
-		for _, n := range refNames {
-			sym := st.heapGet(v, n, v.heapSorts[n])
-			f := v.closedFormula(n, sym, oldAlloc, func(md string) string { return st.heapGet(v, md, v.heapSorts[md]) })
-			if f != "" {
-				st.asserts = append(st.asserts, ";;closed "+sym+"\n"+f)
-			}
-		}
-	}
-	// the callee may allocate: bump first so that closedness facts of the new heap versions refer to the new bound
+	// the callee may allocate
 	x.bumpAlloc(st)
 	for _, n := range order {
 		hs := v.heapSorts[n]
-		old := st.heapGet(v, n, hs)
-		nw := st.heapHavoc(v, n, hs)
-		if !whole[n] {
-			conds := []string{}
-			for _, r := range locs[n] {
-				conds = append(conds, not(eq("r!m", r)))
-			}
-			// objects allocated by the callee are unconstrained; pre-existing ones other than the targets are unchanged
-			conds = append(conds, "(< r!m "+oldAlloc+")")
-			st.assume("(forall ((r!m Int)) (=> " + and(conds...) + " " + eq(sel(nw, "r!m"), sel(old, "r!m")) + "))")
+		if whole[n] {
+			st.heapHavoc(v, n, hs)
+			continue
 		}
+		// Single-object targets: the array changes only at the targets. Objects allocated by the callee need no
+		// treatment: the contents of not-yet-allocated indices are arbitrary, so the callee's postconditions about
+		// its fresh objects simply reveal them (every assumption about array contents is guarded by allocatedness).
+		if len(locs[n]) == 0 {
+			continue // new(...) only: nothing changes at existing objects
+		}
+		_, es := splitArraySort(hs)
+		cur := st.heapGet(v, n, hs)
+		for _, r := range locs[n] {
+			c := st.fresh(v, "mod_"+n, es)
+			cur = store(cur, r, c)
+		}
+		st.heapSet(v, n, hs, cur)
 	}
+	_ = hasFresh
 }
 
 func (x *fnExec) innerRefCtx(c *EvalCtx, base Term, field string, pkg *types.Package) string {
